@@ -51,7 +51,7 @@ Proof.
   intros HG Hg HC Hf. destruct n; [discriminate|]. cbn [g_var] in Hg.
   destruct (is_tag g tVarName || is_tag g tVarIndex || is_tag g tVarAttribute) eqn:Et; [|discriminate].
   unfold var_def. eapply RT_bind; [eapply L_prefixexp; eassumption|].
-  cbv beta. intros t p' Hl_px (Q1 & Q2 & Q3 & Q4 & Q5).
+  cbv beta. intros t p' Hl_px (Q1 & Q2 & Q3 & Q4 & Q5 & _).
   assert (Hv : is_var t = true).
   { destruct g as [tag a b sh fs| | | | | | | |]; try discriminate Et. unfold is_tag in Et. unfold is_var.
     assert (Hc : (tag =? tChain) = false).
@@ -414,7 +414,7 @@ Proof.
     rewrite ret_eq. apply RT_ok; [lia|]. unfold QS. split; [exact Q6|]. split; [lia|]. split; [|split; reflexivity]. den_side. }
   gtag Hg tStatFunctionCall.
   { gmatch Hg. destruct (is_tag t tFunctionCall || is_tag t tFunctionCallMethod) eqn:Ec; [|discriminate]. open_node.
-    destruct (L_prefixexp ts R k HR p mx n t s' (conj Hp0 HGk) Hg ltac:(eassumption) ltac:(fw)) as (fc & p1 & E & Hl_p1 & Q1 & Q2 & Q3 & Q4 & Q5).
+    destruct (L_prefixexp ts R k HR p mx n t s' (conj Hp0 HGk) Hg ltac:(eassumption) ltac:(fw)) as (fc & p1 & E & Hl_p1 & Q1 & Q2 & Q3 & Q4 & Q5 & _).
     assert (Htag : tag_of fc = tFunctionCall \/ tag_of fc = tFunctionCallMethod).
     { destruct t as [tg ta tb tsh tfs| | | | | | | |]; try discriminate Ec. unfold is_tag in Ec.
       destruct (tg =? tFunctionCall) eqn:E1.
